@@ -1,9 +1,13 @@
+mod async_stream;
 mod embed_stream;
 mod fault_stream;
 mod handle_stream;
+mod hostile_stream;
 mod path_stream;
 mod record_stream;
 mod replay;
+mod sched;
+mod sched_stream;
 mod tree_stream;
 mod util;
 mod witness;
@@ -45,7 +49,9 @@ fn main() {
         i += 1;
     }
     // panics are outcomes, not crashes: keep the default hook quiet
-    std::panic::set_hook(Box::new(|_| {}));
+    if std::env::var("VH_DEBUG").is_err() {
+        std::panic::set_hook(Box::new(|_| {}));
+    }
     let t0 = std::time::Instant::now();
     let rep = match stream.as_str() {
         "path" => path_stream::run(&o),
@@ -54,6 +60,9 @@ fn main() {
         "record" => record_stream::run(&o),
         "embed" => embed_stream::run(&o),
         "fault" => fault_stream::run(&o),
+        "sched" => sched_stream::run(&o),
+        "hostile" => hostile_stream::run(&o),
+        "async" => async_stream::run(&o),
         "replay" => replay::run(&o),
         "witness" => witness::run(&o),
         s => {
